@@ -1,44 +1,78 @@
-"""Rebound builtins for transformed modules (rewrite T4).  Identity on concrete values."""
+"""Rebound builtins for transformed modules (rewrite T4).  Identity on concrete values.
+
+`float` and `int` stay usable both as converters and as the second argument of isinstance: they are
+classes whose metaclass answers isinstance like the real type (and counts a symbolic real as a float).
+"""
 import builtins as _bi
 import numbers
 import numpy as _np
 from .terms import SR, SB, Dual, EngineError
 
-_FLOATLIKE = (float, _np.floating, _np.float64, numbers.Real, numbers.Number)
+_FLOATLIKE = (_bi.float, _np.floating, _np.float64, numbers.Real, numbers.Number)
 
 
-def float(x=0.0):  # noqa: A001
-    if _bi.isinstance(x, (SR, Dual)):
-        return x
-    if _bi.isinstance(x, _np.ndarray) and x.dtype == object and x.size == 1:
-        c = x.reshape(-1)[0]
-        if _bi.isinstance(c, (SR, Dual)):
-            return c
-    return _bi.float(x)
+class _FloatMeta(type):
+    def __instancecheck__(cls, x):
+        return _bi.isinstance(x, (_bi.float, SR, Dual))
+
+    def __subclasscheck__(cls, c):
+        return _bi.issubclass(c, _bi.float)
+
+    def __call__(cls, x=0.0):
+        if _bi.isinstance(x, (SR, Dual)):
+            return x
+        if _bi.isinstance(x, _np.ndarray) and x.dtype == object and x.size == 1:
+            c = x.reshape(-1)[0]
+            if _bi.isinstance(c, (SR, Dual)):
+                return c
+        return _bi.float(x)
 
 
-def int(x=0, *a):  # noqa: A001
-    if _bi.isinstance(x, SR):
-        if x.is_const():
-            return _bi.int(x.value)
-        raise EngineError("int() of a symbolic value")
-    return _bi.int(x, *a)
+class float(metaclass=_FloatMeta):  # noqa: A001
+    pass
+
+
+class _IntMeta(type):
+    def __instancecheck__(cls, x):
+        return _bi.isinstance(x, _bi.int)
+
+    def __subclasscheck__(cls, c):
+        return _bi.issubclass(c, _bi.int)
+
+    def __call__(cls, x=0, *a):
+        if _bi.isinstance(x, SR):
+            if x.is_const():
+                return _bi.int(x.value)
+            raise EngineError("int() of a symbolic value")
+        return _bi.int(x, *a)
+
+
+class int(metaclass=_IntMeta):  # noqa: A001
+    pass
 
 
 def print(*a, **k):  # noqa: A001
     return None
 
 
+def _real_type(c):
+    if c is float:
+        return _bi.float
+    if c is int:
+        return _bi.int
+    return c
+
+
 def isinstance(x, cls):  # noqa: A001
+    cs = tuple(_real_type(c) for c in cls) if _bi.isinstance(cls, tuple) else (_real_type(cls),)
     if _bi.isinstance(x, (SR, Dual)):
-        cs = cls if _bi.isinstance(cls, tuple) else (cls,)
         for c in cs:
             if c in _FLOATLIKE:
                 return True
             if c is SR or c is Dual:
                 return _bi.isinstance(x, c)
         return False
-    return _bi.isinstance(x, cls)
+    return _bi.isinstance(x, cs)
 
 
 def round(x, n=None):  # noqa: A001
